@@ -62,7 +62,7 @@ class LockShim(object):
 
 
 class Sched(object):
-    def __init__(self, n, first=0, switches=(), event_budget=200000, handoff=False):
+    def __init__(self, n, first=0, switches=(), event_budget=200000, handoff=False, script=None):
         self.n = n
         self.first = first
         self.sems = [threading.Semaphore(0) for _ in range(n)]
@@ -87,6 +87,14 @@ class Sched(object):
         # for a contended lock), instead of staying ready until the next scheduled switch
         self.handoff = handoff
         self.pending_handoff = None
+        # script mode: a list of steps [tid, k] - "thread tid runs k of its own bytecode events" - or [tid, 'op'] -
+        # "thread tid runs until the operation it is in (or starts next) has returned" - or [tid, 'end'].  This is
+        # how one operation is pre-empted several times with WHOLE operations of another thread in between
+        # (remove the key / put it back: ABA), which global event numbers cannot express robustly.
+        self.script = [list(x) for x in script] if script else None
+        self.step = 0
+        self.step_events = 0
+        self.script_steps_done = 0
 
     def tid(self):
         return getattr(self.tls, 'tid', None)
@@ -110,6 +118,14 @@ class Sched(object):
         self.sites.add((code.co_qualname, offset))
         if self.record_tids:
             self.event_tid.append(tid)
+        if self.script is not None and self.step < len(self.script):
+            stp = self.script[self.step]
+            if stp[0] == tid and isinstance(stp[1], int):
+                self.step_events += 1
+                if self.step_events >= stp[1]:
+                    self.switch_sites.add((code.co_qualname, offset))
+                    self._advance(tid)
+            return
         tgt = self.switches.get(e)
         if tgt is None and self.pending_handoff is not None:
             tgt, self.pending_handoff = self.pending_handoff, None
@@ -122,6 +138,32 @@ class Sched(object):
             self.sems[tid].acquire()
             if self.abort:
                 raise Abort()
+
+    def _advance(self, me):
+        """Script mode: the current step is over; hand the baton to the thread of the next runnable step."""
+        while True:
+            self.step += 1
+            self.step_events = 0
+            self.script_steps_done += 1
+            if self.step >= len(self.script):
+                return
+            tgt = self.script[self.step][0]
+            if tgt == me:
+                return
+            if self.state[tgt] == 'ready':
+                self.made.append((self.events, tgt))
+                self.sems[tgt].release()
+                self.sems[me].acquire()
+                if self.abort:
+                    raise Abort()
+                return
+            # that thread is blocked or finished: the step cannot happen, go on with the next one
+
+    def op_done(self, tid):
+        if self.script is not None and self.step < len(self.script):
+            stp = self.script[self.step]
+            if stp[0] == tid and stp[1] == 'op':
+                self._advance(tid)
 
     def pass_on(self, me):
         """Give the baton to some other ready thread; detect deadlock; or finish."""
@@ -243,6 +285,7 @@ def run_threads(sched, monitor, programs, do_op, watchdog_s=30.0):
                 except Exception as e:
                     rec['res'] = ('exc', type(e).__name__)
                 rec['ret'] = sched.tick()
+                sched.op_done(tid)
         except Abort:
             pass
         finally:
